@@ -209,6 +209,20 @@ fn layout_decls(rng: &mut Rng, p: &mut Program, start_num: u32) {
         deps.insert(idx);
         p.decls.push(cgen::Decl { base: user.clone(), kind: DKind::Struct, ns: None, file: 0, deps, text, variants: vec![], c_ref: format!("struct {user}") });
     }
+    // C++: an empty record used as a base class (the empty-base optimisation gives it no storage in the derived record) and a
+    // non-empty one, each with a derived record
+    if p.cxx && rng.chance(1, 3) {
+        let num = start_num + 9;
+        for (k, body) in [(0u32, String::new()), (1, format!(" short s[{}]; ", rng.range(1, 5)))] {
+            let base = format!("O{}", num + k);
+            p.decls.push(cgen::Decl { base: base.clone(), kind: DKind::Struct, ns: None, file: 0, deps: BTreeSet::new(), text: format!("struct {base} {{{body}}};"), variants: vec![], c_ref: format!("struct {base}") });
+            let idx = p.decls.len() - 1;
+            let user = format!("W{}", num + k);
+            let mut deps = BTreeSet::new();
+            deps.insert(idx);
+            p.decls.push(cgen::Decl { base: user.clone(), kind: DKind::Struct, ns: None, file: 0, deps, text: format!("struct {user} : {base} {{ int x; char y; }};"), variants: vec![], c_ref: format!("struct {user}") });
+        }
+    }
 }
 
 fn build_case(rng: &mut Rng) -> Case {
@@ -735,6 +749,12 @@ fn oracles(
     // ---- still named + container layouts + no derive through blocklisted: compile with user definitions
     // (when the known finding hides un-blocklisted declarations, their uses name types the user was never
     // told to define: reported above, nothing to compile)
+    // ---- opaque types only: the bindings (with their own layout assertions, which speak about the containers of the opaque
+    //      types too) compile as they are
+    if c.blocked.is_empty() && !c.opaque.is_empty() {
+        let head = match empty_opaque_base(c) { Some(b) => format!("// empty-opaque-base: {b}\n"), None => String::new() };
+        rustc_queue.push((format!("{head}{}", run.bindings), full.bindings.clone(), case_json(c)));
+    }
     if !c.namespaces_on && !c.blocked.is_empty() && !ns_finding_hit {
         let mut raw = String::new();
         let mut ok = true;
@@ -777,9 +797,23 @@ fn oracles(
             // reference, which is opaque and not blocklisted); a container naming the blocklisted item directly
             // is answered by the blocklist test first and is NOT in the region
             let head = both_head(run);
-            rustc_queue.push((format!("{head}{raw}\n{}", run.bindings), full.bindings.clone(), case_json(c)));
+            let head2 = match empty_opaque_base(c) { Some(b) => format!("// empty-opaque-base: {b}\n"), None => String::new() };
+            rustc_queue.push((format!("{head2}{head}{raw}\n{}", run.bindings), full.bindings.clone(), case_json(c)));
         }
     }
+}
+
+/// region of known finding `opaque_empty_base_counted` (input-defined): a C++ record derives from an empty record that the options
+/// or an annotation make opaque
+fn empty_opaque_base(c: &Case) -> Option<String> {
+    let p = &c.prog;
+    for &i in &c.opaque {
+        let d = &p.decls[i];
+        if d.text.trim_end().ends_with(&format!("struct {} {{}};", d.base)) || d.text.contains(&format!("struct {} {{}};", d.base)) {
+            if p.decls.iter().any(|u| u.text.contains(&format!(" : {} {{", d.base))) { return Some(d.base.clone()); }
+        }
+    }
+    None
 }
 
 /// region head of known finding `derive_through_blocklisted_opaque`: names of the records that are both blocklisted
@@ -868,7 +902,11 @@ fn run_rustc(queue: &[(String, String, String)], st: &mut Stats, fails: &mut Vec
                             eprintln!("baseline does not compile: {}", fe.lines().filter(|l| l.starts_with("error")).take(3).collect::<Vec<_>>().join(" | "));
                         }
                         st.rustc_baseline_broken += 1;
-                    } else if b.starts_with("// blocklisted-and-opaque") && (e.contains("E0204") || e.contains("E0740") || e.contains("E0277")) && !e.contains("E0425") && !e.contains("E0412") && !e.contains("E0080") {
+                    } else if b.starts_with("// empty-opaque-base") && e.lines().filter(|l| l.starts_with("error[")).all(|l| l.contains("E0080")) {
+                        // known finding `opaque_empty_base_counted`: the derived record gets a `_base` member for an empty base made
+                        // opaque, and bindgen's own size assertion for the derived record fails
+                        st.known("opaque_empty_base_counted", format!("{}; input {}", b.lines().next().unwrap_or(""), &input[..input.len().min(1500)]));
+                    } else if b.lines().take(2).any(|l| l.starts_with("// blocklisted-and-opaque")) && (e.contains("E0204") || e.contains("E0740") || e.contains("E0277")) && !e.contains("E0425") && !e.contains("E0412") && !e.contains("E0080") {
                         // known finding `derive_through_blocklisted_opaque` (region computed from the dump in `oracles`)
                         st.known("derive_through_blocklisted_opaque", format!("{}; input {}", b.lines().next().unwrap_or(""), &input[..input.len().min(1500)]));
                     } else {
@@ -1103,7 +1141,8 @@ fn main() {
                     if ok && extra.len() > c.flags.len() {
                         if let Ok(run2) = run_bindgen(&scratch, &c, &extra, false) {
                             st.bump("module-raw-line-stub-runs");
-                            rustc_queue.push((format!("{}{}", both_head(&run), run2.bindings), full.bindings.clone(), case_json(&c)));
+                            let head2 = match empty_opaque_base(&c) { Some(b) => format!("// empty-opaque-base: {b}\n"), None => String::new() };
+                            rustc_queue.push((format!("{head2}{}{}", both_head(&run), run2.bindings), full.bindings.clone(), case_json(&c)));
                         }
                     }
                 }
